@@ -146,9 +146,25 @@ Proof. destruct o; cbn; try reflexivity. apply out_eqb_refl. Qed.
 Lemma case_agrees_map f s : case_agrees f s (map f s) = true.
 Proof. induction s as [|x s IH]; cbn; [reflexivity|]. rewrite N.eqb_refl, IH. destruct (is_ascii x); reflexivity. Qed.
 
+(* cutting a string at any position k >= 0 (also beyond its end, also the empty string) and joining the parts *)
+Lemma split_join_identity s k : 0 <= k -> opt_str (substring s 0 (Some k)) ++ opt_str (substring s k None) = s.
+Proof.
+  intros Hk. rewrite (substring_is_ref s 0 (Some k)) by lia. rewrite (substring_is_ref s k None) by exact I.
+  unfold ref_substring. cbn [Z.ltb Z.compare orb].
+  destruct (Z.of_nat (length s) <=? 0) eqn:E0.
+  - apply Z.leb_le in E0. destruct s as [|x s]; [|cbn [length] in E0; lia].
+    destruct ((k <? 0) || (Z.of_nat (length (@nil N)) <=? k)); cbn [opt_str app]; [reflexivity|]. destruct (Z.to_nat k); reflexivity.
+  - apply Z.leb_gt in E0.
+    replace (k <? 0) with false by (symmetry; apply Z.ltb_ge; lia). cbn [orb].
+    change (skipn (Z.to_nat 0) s) with s.
+    destruct (Z.of_nat (length s) <=? k) eqn:E1.
+    + apply Z.leb_le in E1. cbn [opt_str]. rewrite app_nil_r. rewrite Z.min_r by lia. rewrite Nat2Z.id. apply firstn_all.
+    + apply Z.leb_gt in E1. cbn [opt_str]. rewrite Z.min_l by lia. apply firstn_skipn.
+Qed.
+
 Theorem holds_model c : holds c (model c) = true.
 Proof.
-  destruct c as [s|s st l|s t|s|s t|s t|s t|s p r|s|s]; cbn [holds model].
+  destruct c as [s|s st l|s t|s|s t|s t|s t|s p r|s|s|s k]; cbn [holds model].
   - apply outcome_eqb_refl.
   - destruct l as [n|].
     + destruct (n <? 0) eqn:E.
@@ -163,4 +179,5 @@ Proof.
   - apply outcome_eqb_refl.
   - apply case_agrees_map.
   - apply case_agrees_map.
+  - destruct (k <? 0) eqn:E; [reflexivity|]. apply Z.ltb_ge in E. rewrite split_join_identity by exact E. apply outcome_eqb_refl.
 Qed.
